@@ -56,7 +56,7 @@ impl K {
             // taking and releasing a lock changes nothing another thread can observe afterwards
             K::Shim(OpKind::MutexLock) | K::Shim(OpKind::MutexUnlock) | K::Shim(OpKind::CvNotifyAll) => true,
             K::Shim(OpKind::Cas) | K::Shim(OpKind::MutexTryLock) => !ok,
-            K::Call | K::TaskWait => true,
+            K::Call | K::TaskWait | K::PayloadYield => true,
             _ => false,
         }
     }
